@@ -1,24 +1,27 @@
 """C04 - signature thresholds count distinct authorized keys with valid signatures."""
-from ..core import Body, callee_name, op_const, op_place, norm
-from ..guards import body_of
+from ..core import Body, callee_name, op_const, op_place, norm, leaf_s, OK, F0
+from ..guards import body_of, root_ids
 from . import shared
 
 EXPLANATION = (
-    "Rules on the MIR of Metablock::verify (path-sensitive dominance, provenance through closures): D1 every Ok return "
-    "is edge-dominated by threshold >= 1; D2 the authorised keys are collected into a map keyed by PublicKey::key_id of "
-    "the same key; D3 the counting loop iterates a map keyed by Signature::key_id built from self.signatures, so no "
-    "signature key id is visited twice; D4 the countdown is initialised from `threshold` only, every other assignment is "
-    "a decrement by one, and each decrement is edge-dominated by the Some edge of authorised.get(<that signature's key "
-    "id>) and the Ok edge of PublicKey::verify(<the looked-up key>, msg, <that signature>); D5 the Ok return is "
-    "dominated by countdown == 0, returns a clone of self.metadata, and msg is derived from self.metadata.to_bytes() "
-    "only; D6 the scheme tables of PrivateKey::sign and PublicKey::verify are extracted per match arm and compared "
-    "with the frozen correspondence of ring algorithms.")
+    "Rules on the path-sensitive REGION of Metablock::verify (module-private helpers inlined, iterator adaptors and "
+    "closures rewritten into the loops they stand for): D1 every Ok return is edge-dominated by threshold >= 1; D2 the "
+    "table in which signature key ids are looked up holds entries (PublicKey::key_id(k), k) for the caller's keys k - "
+    "read off the table's insertions, whatever builds it; D3 the counting loop iterates a map whose entries are "
+    "(Signature::key_id(s), s) over self.signatures, so no key id is visited twice; D4 the countdown is initialised "
+    "from `threshold` only, every other assignment is a decrement by one, and each decrement is edge-dominated by the "
+    "Some edge of table.get(key id of the signature being verified) and the Ok edge of PublicKey::verify(<the key that "
+    "lookup found>, msg, <that signature>); D5 the Ok return is dominated by countdown == 0, returns a clone of "
+    "self.metadata, and msg is derived from self.metadata.to_bytes() only; D6 the scheme tables of PrivateKey::sign "
+    "and PublicKey::verify are extracted per match arm and compared with the frozen correspondence of ring "
+    "algorithms; D7 every assignment of PublicKey::verify's return value is an Err, or carries the Ok of ring's "
+    "UnparsedPublicKey::verify(self.value, msg, sig.value) (no early Ok, no cache).")
 DECIDED = ["D1 threshold >= 1", "D2 authorised keys de-duplicated by intrinsic key id", "D3 signatures de-duplicated by key id",
-           "D4 countdown discipline", "D5 Ok only at countdown 0, payload = checked content", "D6 sign/verify scheme tables agree"]
+           "D4 countdown discipline", "D5 Ok only at countdown 0, payload = checked content", "D6 sign/verify scheme tables agree", "D7 PublicKey::verify is Ok only on ring's Ok for the same key, message and signature"]
 UNDECIDED = ["order independence as a value-level statement (follows from D3-D5)", "cryptographic validity (ring)"]
 TRUSTED = ["ring: UnparsedPublicKey::verify accepts exactly valid signatures of the given algorithm"]
 ASSUMPTIONS = ["HashMap::collect keeps one entry per key"]
-FLOORS = {"C04/D1": 1, "C04/D2": 1, "C04/D3": 1, "C04/D4": 3, "C04/D5": 3, "C04/D6": 9}
+FLOORS = {"C04/D1": 1, "C04/D2": 1, "C04/D3": 1, "C04/D4": 3, "C04/D5": 3, "C04/D6": 9, "C04/D7": 1}
 
 VERIFY_TABLE = {"Ed25519": "ring::signature::ED25519", "RsaSsaPssSha256": "ring::signature::RSA_PSS_2048_8192_SHA256",
                 "RsaSsaPssSha512": "ring::signature::RSA_PSS_2048_8192_SHA512", "EcdsaP256Sha256": "ring::signature::ECDSA_P256_SHA256_ASN1"}
@@ -88,6 +91,48 @@ def run_d6(ctx):
             unk_ok = not any(callee_name(vb.blocks[x]["term"]) and "ring::" in callee_name(vb.blocks[x]["term"]) for x in r
                              if vb.blocks[x]["term"] and vb.blocks[x]["term"]["k"] == "call")
     ctx.inst("C04/D6", "verify rejects an unknown scheme", unk_ok, "the Unknown(..) arm reaches no ring verification call")
+    # ---- D7: PublicKey::verify says Ok only when ring has verified this signature over this message with this key
+    RING_VERIFY = "ring::signature::UnparsedPublicKey::verify"
+    vb_d6 = vb
+    vb = ctx.region(None, policy="all-local", key=vf["key"], ps=True)     # accessors such as as_bytes()/value() inlined
+    rv_calls = vb.calls_named(RING_VERIFY)
+    def is_ring_ok(leaves):
+        return bool(leaves) and all(l.kind == "call" and callee_name(l.data[1]) == RING_VERIFY and l.path == (OK, F0) for l in leaves)
+    bad_ok = []
+    n_defs = 0
+    for d in vb.defs.get(0, []):
+        if d.bb not in vb.reach:
+            continue
+        n_defs += 1
+        if d.kind == "assign" and d.node["rv"]["k"] == "agg" and d.node["rv"].get("variant") == "Err":
+            continue
+        if d.kind == "assign" and d.node["rv"]["k"] == "agg" and d.node["rv"].get("variant") == "Ok":
+            dom = False
+            for (e, fa) in vb.facts_dominating(d.bb):
+                if fa[0] == "variant" and fa[2] in ("Ok", "Continue"):
+                    lv = vb.trace(fa[1], (("v", fa[2]), F0))
+                    if is_ring_ok(lv):
+                        dom = True
+            if not dom:
+                bad_ok.append("Ok(..) built at %s without a dominating Ok outcome of ring's verify" % vb.at(d.bb))
+            continue
+        if d.kind == "call" and callee_name(d.node) == "std::ops::FromResidual::from_residual":
+            continue          # `?`: carries an Err only
+        lv = vb.trace({"l": 0, "p": []}, (OK, F0)) if d.kind != "call" else vb._trace_call(d.bb, d.node, (OK, F0), None, None, False, set(), ())
+        if not is_ring_ok(lv):
+            bad_ok.append("return value at %s: Ok payload <- {%s}" % (vb.at(d.bb), ", ".join(leaf_s(vb, l) for l in lv)))
+    args_ok = len(rv_calls) >= 1
+    for (i, t) in rv_calls:
+        msg, sg = root_ids(vb, t["args"][1]), root_ids(vb, t["args"][2])
+        kl = vb.trace(t["args"][0], (), lambda tt: callee_name(tt) == "ring::signature::UnparsedPublicKey::new")
+        key_ok = bool(kl) and all(l.kind == "call" and callee_name(l.data[1]) == "ring::signature::UnparsedPublicKey::new" and
+                                  all(k == "param" and i_ == 1 and p[:1] == (("f", "value"),) for (k, i_, p) in root_ids(vb, l.data[1]["args"][1])) for l in kl)
+        if not (msg == frozenset([("param", 2, ())]) and all(k == "param" and i_ == 3 and p[:1] == (("f", "value"),) for (k, i_, p) in sg) and sg and key_ok):
+            args_ok = False
+    ctx.inst("C04/D7", "PublicKey::verify returns Ok only from ring's verification of (this key, the message, the signature)",
+             not bad_ok and args_ok and n_defs >= 1,
+             "%d assignment(s) of the return value examined; problems: %s; ring verify arguments are (self.value, msg, sig.value): %s" % (n_defs, bad_ok, args_ok), vf["at"])
+    vb = vb_d6
     st = {}
     for (bb, tok) in statics_and_signs(sb):
         arm = arm_of(sb, bb)
